@@ -1,5 +1,6 @@
 import MosnVerif.Drive.Util
 import MosnVerif.Model.TlsSelect
+import MosnVerif.Model.TlsUpdate
 /-!
 Driver of C13. Case kinds (the first token after the kind is a class label computed by the generator, ignored here):
   sel|hs <cls> <ctxs> <sni> <protos>            => <index|err|nil>     GetConfigForClient directly / through a handshake
@@ -11,11 +12,16 @@ Driver of C13. Case kinds (the first token after the kind is a class label compu
   insp <cls> <tcp> <configured> <enabled> <inspector> <peekfail> <first> => raw|tls|tlsPeeked|plainPeeked|peekError
   trust <cls> <require> <verify> <peer>          => ok|fail            server-side handshake result
   trustc <cls> <ready> <hook> <insecure> <snset> <cert> <hookok> => ok|fail|notls   MOSN client-side Conn result
+  upd <cls> <calls> <first> <sni> <protos>       => served|refused <call.ctx|err> s<inspector>.<contexts>|absent
+        calls joined by `|`, a call = <accepted 0|1><inspector 0|1>@<ctxs>: AddOrUpdateListener history of one real listener,
+        then a plaintext connection with that first byte and a TLS handshake; stored = the listener's Config()
+  res <cls> <require> <verify> <peer> <none|clock|caswap> => ok|fail ok|fail r|f   full handshake, change, second handshake
+        offering the session ticket; r = the server reports DidResume
 Strings: `~` = empty, `%xx` escapes; lists joined by `+`, `-` = empty list; ctx = `r|n:cn:sans:alpncfg:servername`,
 contexts joined by `;`.
 -/
 namespace MosnVerif.Drive.C13
-open MosnVerif.Drive MosnVerif.Model.TlsSelect MosnVerif.Gen.TlsPolicy
+open MosnVerif.Drive MosnVerif.Model.TlsSelect MosnVerif.Gen.TlsPolicy MosnVerif.Model.TlsUpdate MosnVerif.Gen.TlsUpdate
 
 def unesc : List Char → Option Name
   | [] => some []
@@ -86,6 +92,34 @@ def tf (b : Bool) : String := if b then "T" else "F"
 def okfail (b : Bool) : String := if b then "ok" else "fail"
 def b01 (b : Bool) : String := if b then "1" else "0"
 
+def change? : String → Option Change
+  | "none" => some .none | "clock" => some .clock | "caswap" => some .caSwap | _ => none
+
+/-- one AddOrUpdateListener call `<ok><insp>@<ctxs>`; its contexts are tagged with the call's number -/
+def op? (k : Nat) (s : String) : Option Op :=
+  match s.splitOn "@" with
+  | [fl, cs] =>
+    match flags? fl, ctxs? cs with
+    | some (ok, insp), some cs => some ⟨⟨"L", insp, cs.map (fun c => (k, c))⟩, ok⟩
+    | _, _ => none
+  | _ => none
+
+def ops? (s : String) : Option (List Op) :=
+  let rec go (k : Nat) : List String → Option (List Op)
+    | [] => some []
+    | x :: r => match op? k x, go (k + 1) r with
+      | some o, some t => some (o :: t)
+      | _, _ => none
+  go 0 (s.splitOn "|")
+
+def showPresented : Option (Nat × Nat) → String
+  | some (t, i) => s!"{t}.{i}"
+  | none => "err"
+
+def showStored (lc : LCfg) : String := s!"s{b01 lc.inspector}.{lc.contexts.length}"
+
+def servedTok (b : Bool) : String := if b then "served" else "refused"
+
 def verdict (model : String) (impl : String) (spec : Bool) : String :=
   s!"{if model == impl then "A" else "D"} {if spec then "S" else "V"} {model}"
 
@@ -147,6 +181,30 @@ def run (caseToks impl : List String) : String :=
     | some tcp, some cfgd, some en, some ins, some pf, some first, some ir =>
       verdict (showConn (connDecision tcp en ins pf first)) r (specConn tcp cfgd en ins pf first ir)
     | _, _, _, _, _, _, _ => "E E bad-case"
+  | ["upd", _, ops, first, sni, protos], [plain, cert, stored] =>
+    match ops? ops, first.toNat?, name? sni, names? protos with
+    | some ops, some first, some sni, some protos =>
+      let m := match MosnVerif.Model.TlsUpdate.run ops with
+        | none => "refused err absent"
+        | some st => s!"{servedTok (servesPlain (st.conn first))} {showPresented (st.presented sni protos)} {showStored st.stored}"
+      let spec := match specLast none ops with
+        | none => "refused err absent"
+        | some lc =>
+          let c := if lc.contexts.any (·.2.ready) then showPresented (specPresented lc sni protos) else "err"
+          s!"{servedTok (specPlainServed lc first)} {c} {showStored lc}"
+      verdict m s!"{plain} {cert} {stored}" (s!"{plain} {cert} {stored}" == spec)
+    | _, _, _, _ => "E E bad-case"
+  | ["res", _, req, ver, peer, ch], [r1, r2, resumed] =>
+    match bool? req, bool? ver, peer? peer, change? ch with
+    | some req, some ver, some p, some ch =>
+      let auth := getClientAuth req ver
+      let m := s!"{okfail (serverAccepts auth p)} {okfail (secondAccepts auth ch p)}"
+      -- statement: both handshakes follow the trust table for the certificate as it is at that moment; a session can
+      -- only be resumed after a handshake that succeeded
+      let spec := r1 == okfail (specServerAccepts req ver p) && r2 == okfail (specServerAccepts req ver (peerAfter ch p)) &&
+        (resumed == "f" || (resumed == "r" && r1 == "ok" && r2 == "ok"))
+      verdict m s!"{r1} {r2}" spec
+    | _, _, _, _ => "E E bad-case"
   | ["trustc", _, ready, hook, ins, sn, cert, hok], [r] =>
     match bool? ready, bool? hook, bool? ins, bool? sn, scert? cert, bool? hok, cres? r with
     | some ready, some hook, some ins, some sn, some cert, some hok, some cr =>
